@@ -14,8 +14,8 @@ CR == 13  LF == 10  DASH == 45  BB == <<66, 66>>          \* boundary text "BB"
 \* near-boundary data atoms (the renderer never puts a complete delimiter = line end + "--BB" into part data)
 Atoms == << <<120>>, <<CR>>, <<LF>>, <<DASH>>, <<DASH, DASH>>, <<CR, LF>>, <<CR, LF, DASH, DASH, 66>>, <<LF, DASH, DASH, 66, 120>>, <<120, DASH, DASH, 66, 66>>,
             <<CR, CR>>, <<CR, LF, DASH>>, <<DASH, DASH, 66, 66, DASH, DASH>>, <<0>>, <<CR, LF, CR, LF>> >>
-Names == <<"f1", "field two", "a\"b", "x\\y", "">>
-Files == <<None, Some("a.txt"), Some("q\"uote.bin"), None, Some("")>>
+Names == <<"f1", "field two", "a\"b", "x\\y", "", "dir\\", "q\\\"">>
+Files == <<None, Some("a.txt"), Some("q\"uote.bin"), None, Some(""), Some("C:\\tmp\\"), None>>
 CTypes == <<None, Some("text/plain"), Some("application/octet-stream")>>
 Idx(n, i, p, q) == (i * p + (i \div q)) % n
 Pick(pool, i, p, q) == pool[Idx(Len(pool), i, p, q) + 1]
